@@ -80,18 +80,36 @@ package crypto
 //@ assigns *res
 //@ ensures *res == g2mulgen(old(*expo))
 
+// g2vecValid is the abstract predicate "every 96-byte chunk is a canonical encoding of a point of G2": it is
+// introduced by this clause (an assumed ghost postcondition), the body is checked for memory safety and frame
 //@ cfunc G2_vector_read_bytes props C07 C09
 //@ requires A_len >= 0 && valid(A, A_len) && valid(src, 96*A_len)
 //@ assigns A[0:A_len]
-//@ ensures (result == valid) == g2vecValid(src[0:96*A_len], A_len)
+//@ assumes (result == valid) == g2vecValid(src[0:96*A_len], A_len)
+//@ loop 1 invariant 0 <= i && i <= A_len && p == &src[96*i]
+//@ loop 1 assigns A[0:A_len], i, p
 
 //@ cfunc E2_vector_write_bytes props C09
 //@ requires A_len >= 0 && valid(A, A_len) && valid(out, 96*A_len)
 //@ assigns out[0:96*A_len]
+//@ loop 1 invariant 0 <= i && i <= A_len && p == &out[96*i]
+//@ loop 1 assigns out[0:96*A_len], i, p
 
 //@ cfunc E2_polynomial_images props C07 C09
 //@ requires 0 <= len_y && len_y <= 255 && degree >= 0 && valid(y, len_y) && valid(A, degree+1)
 //@ assigns y[0:len_y]
+//@ loop 1 invariant 0 <= i && i <= len_y
+//@ loop 1 assigns y[0:len_y], i
+
+//@ cfunc E2_polynomial_image props C07 C09
+//@ requires y != nil && degree >= 0 && valid(A, degree+1)
+//@ assigns *y
+//@ loop 1 invariant -1 <= i && i <= degree
+//@ loop 1 assigns *y, i
+
+//@ cfunc E2_mult_small_expo nobody
+//@ requires res != nil && p != nil
+//@ assigns *res
 
 //@ cfunc Fr_polynomial_image_write props C06 C09
 //@ requires degree >= 0 && valid(out, 32) && valid(a, degree+1) && (y == nil || valid(y, 1))
@@ -100,6 +118,10 @@ package crypto
 //@ cfunc map_bytes_to_Fr props C12 C09
 //@ requires a != nil && in_len >= 0 && valid(in, in_len)
 //@ assigns *a
+
+//@ cfunc Fr_from_be_bytes nobody params out in in_len
+//@ requires out != nil && in_len >= 0 && valid(in, in_len)
+//@ assigns *out
 
 //@ cfunc Fr_sum_vector props C04 C09
 //@ requires jointx != nil && x_len >= 0 && valid(x, x_len)
@@ -214,6 +236,7 @@ package crypto
 //@ assigns *x
 
 //@ func generateFrPolynomial mode int props C06 C09
+//@ dead-return 2   // NewChacha20PRG only fails for a seed or customizer of the wrong length: both are constant here
 //@ requires 0 <= degree && degree <= 254
 //@ assigns nothing
 //@ ensures [short-seed] len(seed) < 32 ==> result1 != nil && iserr(result1, *invalidInputsError)
